@@ -443,8 +443,7 @@ func runC14(ch *Choices, cfg *RunCfg) (o *Outcome) {
 		}
 	default:
 		// a hostile peer: legal structure built to be expensive
-		valid, firstDesc = hostileStream(ch)
-		nvals = 1
+		valid, firstDesc, nvals = hostileStreamN(ch)
 		o.Probes["hostile structured stream (DAG / deep nesting / reference fan-in)"]++
 	}
 	tm, tmName := c14TypeMap(ch)
